@@ -16,6 +16,7 @@ package main
 
 import (
 	"fmt"
+	"os"
 	"go/types"
 	"sort"
 	"strings"
@@ -36,6 +37,10 @@ type goTr struct {
 	inOld bool
 	depth int
 	bad   string
+	// lenient (preconditions): a conjunct that cannot be translated (nil-ness, object identity,
+	// quantifiers) is left unchecked and recorded, instead of giving up
+	lenient bool
+	skipped []string
 }
 
 func (g *goTr) fail(f string, a ...any) goVal {
@@ -99,6 +104,19 @@ func (g *goTr) ex(e *CExpr) goVal {
 		}
 		return g.fail("unary %s", e.Op)
 	case "bin":
+		if e.Op == "&&" && g.lenient && !g.inOld {
+			side := func(c *CExpr) goVal {
+				v := g.ex(c)
+				if g.bad != "" || v.kind != "bool" {
+					g.skipped = append(g.skipped, c.String())
+					g.bad = ""
+					return goVal{code: "true", kind: "bool"}
+				}
+				return v
+			}
+			x, y := side(e.X), side(e.Y)
+			return goVal{code: "(" + x.code + " && " + y.code + ")", kind: "bool"}
+		}
 		x, y := g.ex(e.X), g.ex(e.Y)
 		switch e.Op {
 		case "+", "-", "*":
@@ -325,11 +343,22 @@ func goTypeString(t types.Type) (string, bool) {
 	return s, ok
 }
 
-func flatReplayTest(env *Env, u *Unit, o *Oblig) (string, bool) {
+func flatDbg(f string, a ...any) {
+	if os.Getenv("VERIF_DEBUG") != "" {
+		fmt.Fprintf(os.Stderr, "flatreplay: "+f+"\n", a...)
+	}
+}
+
+func flatReplayTest(env *Env, u *Unit, o *Oblig) (src string, ok bool) {
+	defer func() {
+		if !ok {
+			flatDbg("%s: no replay", o.Name)
+		}
+	}()
 	if u == nil || o.Result == "unsat" {
 		return "", false
 	}
-	if !safetyKinds[o.Kind] && o.Kind != "ensures" && o.Kind != "precondition" {
+	if !safetyKinds[o.Kind] && o.Kind != "ensures" {
 		return "", false
 	}
 	key := strings.SplitN(o.Fn, "[", 2)[0]
@@ -399,9 +428,19 @@ func flatReplayTest(env *Env, u *Unit, o *Oblig) (string, bool) {
 		g.vars[recv.Name()] = goVal{code: rname, kind: "obj", typ: recv.Type()}
 		olds[recv.Name()] = goVal{code: "(&old_" + rname + ")", kind: "obj", typ: recv.Type()}
 		r := mkVar("p."+recv.Name(), sortInt)
+		// a struct that is not object-like (no identity needed: arrays and scalars only) is
+		// modelled as a record value in a copy-in/copy-out cell instead of field heaps
+		asRecord := !env.te.isObjectLike(rt)
+		recVal := mkVar("p."+recv.Name()+".val", env.te.sortOf(rt))
 		for i := 0; i < st.NumFields(); i++ {
 			f := st.Field(i)
 			fnm, fso := env.te.fieldHeap(rt, i)
+			fieldTerm := func() *Term {
+				if asRecord {
+					return mkSel(recVal, i)
+				}
+				return mkSelect(mkVar(fnm+"@0", fso), r)
+			}
 			fname := f.Name()
 			switch ft := f.Type().Underlying().(type) {
 			case *types.Basic:
@@ -412,7 +451,7 @@ func flatReplayTest(env *Env, u *Unit, o *Oblig) (string, bool) {
 				if !ok {
 					continue
 				}
-				t := mkSelect(mkVar(fnm+"@0", fso), r)
+				t := fieldTerm()
 				terms = append(terms, t)
 				if fso.Elem == sortBool {
 					sets = append(sets, setter{func(v int64) string { return fmt.Sprintf("%s.%s = %v", rname, fname, v != 0) }})
@@ -430,7 +469,7 @@ func flatReplayTest(env *Env, u *Unit, o *Oblig) (string, bool) {
 				if !ok {
 					continue
 				}
-				t := sliceLen(mkSelect(mkVar(fnm+"@0", fso), r))
+				t := sliceLen(fieldTerm())
 				terms = append(terms, t)
 				ranges = append(ranges, mkLe(mkInt(0), t), mkLe(t, mkInt(1<<16)))
 				sets = append(sets, setter{func(v int64) string {
@@ -445,9 +484,13 @@ func flatReplayTest(env *Env, u *Unit, o *Oblig) (string, bool) {
 	if len(terms) == 0 {
 		return "", false
 	}
-	vals, ok := getValues(u, o, terms, ranges)
-	if !ok {
+	vals, okv := getValues(u, o, terms, ranges)
+	if !okv {
+		flatDbg("no model values for %d terms", len(terms))
 		return "", false
+	}
+	for i, t := range terms {
+		flatDbg("  %s = %d", truncate(t.String(), 120), vals[i])
 	}
 	var lines []string
 	for i, s := range sets {
@@ -462,19 +505,26 @@ func flatReplayTest(env *Env, u *Unit, o *Oblig) (string, bool) {
 	allPre := true
 	if con != nil {
 		for _, cl := range con.Requires {
-			g.bad, g.olds = "", nil
+			g.bad, g.olds, g.lenient = "", nil, true
 			v := g.ex(cl.Expr)
+			g.lenient = false
 			if g.bad != "" || v.kind != "bool" {
+				flatDbg("precondition %s not translated: %s", cl.Src, g.bad)
 				allPre = false
 				continue
 			}
 			pre = append(pre, v.code)
 		}
 	}
+	if o.Kind != "ensures" && len(g.skipped) > 0 {
+		flatDbg("safety obligation, but %d precondition conjuncts cannot be established on a zero-value receiver", len(g.skipped))
+		return "", false
+	}
 	post := ""
 	what := "the real code panics on the counterexample"
 	if o.Kind == "ensures" {
 		if con == nil || !allPre {
+			flatDbg("a precondition could not be translated: %s", g.bad)
 			return "", false
 		}
 		var cl *Clause
@@ -501,6 +551,7 @@ func flatReplayTest(env *Env, u *Unit, o *Oblig) (string, bool) {
 		g.bad, g.olds = "", olds
 		v := g.ex(cl.Expr)
 		if g.bad != "" || v.kind != "bool" {
+			flatDbg("postcondition not translated: %s", g.bad)
 			return "", false
 		}
 		post = v.code
@@ -530,7 +581,11 @@ func flatReplayTest(env *Env, u *Unit, o *Oblig) (string, bool) {
 	b.WriteString("func vdiv(a, b int64) int64 { if b == 0 { return 0 }; q := a / b; if a%b < 0 { if b > 0 { q-- } else { q++ } }; return q }\n")
 	b.WriteString("func vmod(a, b int64) int64 { if b == 0 { return a }; m := a % b; if m < 0 { if b > 0 { m += b } else { m -= b } }; return m }\n")
 	b.WriteString("var _, _, _, _ = vmin, vmax, vdiv, vmod\n\n")
-	fmt.Fprintf(&b, "// inputs and receiver fields taken from the solver's counterexample for\n// %s\nfunc TestVerifReplay(t *testing.T) {\n", strings.ReplaceAll(o.Name, "\n", " "))
+	fmt.Fprintf(&b, "// inputs and receiver fields taken from the solver's counterexample for\n// %s\n", strings.ReplaceAll(o.Name, "\n", " "))
+	for _, sk := range g.skipped {
+		fmt.Fprintf(&b, "// precondition conjunct not checked on the candidate (not expressible over scalars): %s\n", strings.ReplaceAll(truncate(sk, 160), "\n", " "))
+	}
+	b.WriteString("func TestVerifReplay(t *testing.T) {\n")
 	for _, d := range decls {
 		b.WriteString("\t" + d + "\n")
 	}
@@ -546,7 +601,13 @@ func flatReplayTest(env *Env, u *Unit, o *Oblig) (string, bool) {
 	for _, s := range saves {
 		b.WriteString("\t" + s + "\n")
 	}
-	b.WriteString("\tdefer func() {\n\t\tif p := recover(); p != nil {\n\t\t\tt.Fatalf(\"REPLAY-REPRODUCED: the real code panics on the counterexample: %v\", p)\n\t\t}\n\t}()\n")
+	if len(g.skipped) > 0 {
+		// a panic may be due to a precondition conjunct the candidate was not checked against
+		// (a nil object the zero-value receiver lacks): not judged
+		b.WriteString("\tdefer func() {\n\t\tif p := recover(); p != nil {\n\t\t\tt.Logf(\"REPLAY-INCONCLUSIVE: the call panicked, but not every precondition could be established on the candidate: %v\", p)\n\t\t}\n\t}()\n")
+	} else {
+		b.WriteString("\tdefer func() {\n\t\tif p := recover(); p != nil {\n\t\t\tt.Fatalf(\"REPLAY-REPRODUCED: the real code panics on the counterexample: %v\", p)\n\t\t}\n\t}()\n")
+	}
 	b.WriteString("\t" + call + "\n")
 	if post != "" {
 		fmt.Fprintf(&b, "\tif !(%s) {\n\t\tt.Fatalf(\"REPLAY-REPRODUCED: %s\")\n\t}\n", post, what)
